@@ -34,7 +34,14 @@ func (c *Ctx) isHelper(fn, callee *ssa.Function) bool {
 	if cp == nil || fp == nil {
 		return callee.Parent() != nil // closures
 	}
-	return cp == fp
+	if cp == fp {
+		return true
+	}
+	// a function of another package that did not exist on the reviewed tree (a helper moved into the package it serves)
+	if obj := objOfFunc(callee); obj != nil && obj.Exported() && callee.Parent() == nil && !reviewedExported[fname(origin(callee))] {
+		return true
+	}
+	return false
 }
 
 // pkgOfFunc: the package a function belongs to; instantiations of generic functions belong to their origin's package.
@@ -92,7 +99,7 @@ func (c *Ctx) regionCalls(root *ssa.Function, follow func(*ssa.Function) bool) [
 				if follow != nil {
 					ok = follow(callee)
 				} else {
-					ok = objOfFunc(callee) != nil && !objOfFunc(callee).Exported()
+					ok = objOfFunc(callee) != nil && (!objOfFunc(callee).Exported() || !reviewedExported[fname(origin(callee))])
 				}
 				if ok {
 					walk(callee, append(append([]ssa.CallInstruction{}, ch...), ci), stack)
